@@ -323,22 +323,17 @@ known("C03", "C03:prefix-then-undecodable-byte",
       "entry C08:prefix-then-non-ascii-character), so Input.send() no longer raises or loses bytes; get_key called "
       "directly still raises, which is what this entry records")
 
-known("C06", "C06:join-parses-plain-str-as-markup",
-      "sep.join([...]) runs plain-str items through fmtstr(): an item that holds an escape sequence is parsed as markup "
-      "(its SGR sequences become formatting, other sequences are stripped), so the result's text and length differ from "
-      "str.join's and from a + sep + b, which keeps such a str verbatim",
+fixed("C06", "C06:join-parses-plain-str-as-markup", "9018a47",
+      "sep.join([...]) ran plain-str items through fmtstr(): an item holding an escape sequence was parsed as markup, so the "
+      "result's text and length differed from str.join's and from a + sep + b (recorded as a known finding at first; repaired "
+      "once three independent reviews had read the statement the same way)",
       [{"op": "join_markup", "sep": [[", ", {"fg": 32}]], "items": ["\x1b[31mhi", "x"]},
-       {"op": "join_markup", "sep": [[", ", {"fg": 32}]], "items": ["a\x1b[2Jb", "c"]}],
-      "parsing escape-coded text is fmtstr()'s documented job and FSArray assignment relies on splice() doing it for str "
-      "rows; whether join/splice/append should treat a plain str as text (as + does, and as the TODO in join says) or as "
-      "markup is the maintainers' design decision: switching them changes len/width bookkeeping for callers that pass "
-      "ANSI-coloured str today, so it is not a small and safe patch")
-known("C09", "C09:plain-str-parsed-as-markup",
-      "f.splice(new, ...) / f.append(new) run a plain str through fmtstr(): a str holding an escape sequence is parsed as "
-      "markup, so the inserted characters are not the str's characters (and may come out formatted), unlike f + new",
+       {"op": "join_markup", "sep": [[", ", {"fg": 32}]], "items": ["a\x1b[2Jb", "c"]}])
+fixed("C09", "C09:plain-str-parsed-as-markup", "9018a47",
+      "f.splice(new, ...) / f.append(new) ran a plain str through fmtstr(): a str holding an escape sequence was parsed as markup, "
+      "unlike f + new",
       [{"kind": "markup", "spec": [["ab", {"fg": 31}], ["cd", {}]], "new": "\x1b[31mhi", "start": 1},
-       {"kind": "markup", "op": "append", "spec": [["xyz", {"bold": True}]], "new": "a\x1b[2Jb", "start": 0}],
-      "same mechanism and reason as C06:join-parses-plain-str-as-markup")
+       {"kind": "markup", "op": "append", "spec": [["xyz", {"bold": True}]], "new": "a\x1b[2Jb", "start": 0}])
 
 out = os.path.join(os.path.dirname(os.path.abspath(__file__)), "known_findings.json")
 with open(out, "w") as f:
